@@ -162,8 +162,241 @@ def rand_text(rng):
     return "".join(rng.choice(al) for _ in range(rng.randrange(0, 8))).encode()
 
 
-def generate(rng, tier):
+# ------------------------------------------------------------------------------------------------
+# pipeline part: the real kvarn::handle_cache on a Host over a fixture tree on disk (harness/src/c01pipe.rs)
+# against PathSan.serve over the same tree (Model/PathSanPipe.v), plus model-independent oracles
+# ------------------------------------------------------------------------------------------------
+SENTINEL = b"SENTINEL"
+PUBLIC_DIRS = [b"public", b"pub", b"www/pub"]
+# names chosen so that token strings, the default folder_default / extension_default expansion and single / double
+# decodings hit them: a real file may be called "%2e%2e" or "..\secret.txt"
+INSIDE = [b"index.html", b"a.html", b"secret.txt", b"secret.html", b"aa", b"a.a", b"%", b"\\", "é".encode(), "aé".encode(),
+          b"a/index.html", b"a/a", b"a/a.html", b"a/b.txt", "a/é".encode(), b"a/aa/index.html", b"a/aa/a", b"a\\a", b"..\\secret.txt",
+          b"%2e", b"%2f", b"%2e%2e/index.html", b"%2e%2e/secret.txt", b"%2e%2e/a", b"%2e%2e%2fsecret.txt", b".a/a", b"..a", b"a..",
+          b"sub/index.html", b"sub/secret.html", b"sub/%2e%2e/index.html"]
+OUTSIDE_NAMES = [b"index.html", b"secret.txt", b"secret.html", b"a.html", b"aa", b"a.a", b"%", "é".encode(), b"outside.txt", b"html",
+                 b"private/index.html", b"private/a", b"private/secret.txt"]
+HANDLERS = [(b"/h", b"HANDLER-h", 2), (b"/a/a.html", b"HANDLER-a-a-html", 0), (b"/h/index.html", b"HANDLER-h-index", 2),
+            (b"/aa.html", b"HANDLER-aa-html", 2)]
+METHODS = [b"GET", b"HEAD", b"POST", b"OPTIONS"]
+INTERNAL_STATUS = (403, 204)
+CORS_DENIED = b"CORS request denied"
+
+
+def fixture_files(public):
+    files = []
+    base = b"host/" + public + b"/"
+    for n in INSIDE:
+        files.append((base + n, b"PUB:" + n))
+    # every directory from the run directory down to the parent of the public directory gets sentinel files
+    levels = [b"", b"host/"]
+    parts = public.split(b"/")
+    for i in range(1, len(parts)):
+        levels.append(b"host/" + b"/".join(parts[:i]) + b"/")
+    for lv in levels:
+        for n in OUTSIDE_NAMES:
+            files.append((lv + n, SENTINEL + b":" + lv + n))
+    return files
+
+
+_FIX = {}
+
+
+def pipe_cfg(default_ext, cache, fcache, public):
+    key = (default_ext, cache, fcache, public)
+    if key not in _FIX:
+        _FIX[key] = xl(xbool(default_ext), xbool(cache), xbool(fcache), xb(public),
+                       xlist([xl(xb(a), xb(b)) for a, b in fixture_files(public)]),
+                       xlist([xl(xb(a), xb(b), xn(s)) for a, b, s in HANDLERS]))
+    return _FIX[key]
+
+
+def pipe_case(cfgkey, reqs, kind):
+    return Case("pathsanpipe.run", xl(pipe_cfg(*cfgkey), xlist([xl(xb(m), xb(t), xn(k)) for m, t, k in reqs])), "pathsanpipe.spec",
+                {"kind": kind, "requests": len(reqs), "cfg": cfgkey})
+
+
+DOTDOT = [b"..", b"%2e%2e", b"%2E%2e", b".%2e", b"%2e.", b"%252e%252e", b"%252E%252E", b".%252e", b"%25252e%25252e", b"%c0%ae%c0%ae", b"..%00", b"...", b"."]
+SEP = [b"/", b"/", b"%2f", b"%2F", b"%5c", b"%5C", b"\\", b"%252f", b"%255c", b"%c0%af", b"//", b"/./", b"%00/"]
+LEAF = [b"secret.txt", b"index.html", b"", b"secret.", b"secret.html", b"outside.txt", b"a.html", b"a.", b"aa", b"private/", b"private/a", b"%",
+        b"host/secret.txt", b"public/index.html", b"html", b".", b"%2e", b"%2f", b"%252e", b"%252f"]
+PREFIX = [b"", b"", b"a/", b"sub/", b"%2e%2e/", b"a/aa/", b"nonexistent/", b"%252e%252e/", b"a%2f", b"sub%5c"]
+PTOKENS = TOKENS + [b"%252e", b"%252f", b"%255c", b"%5C", b"\\", b"%252E", b"%2e%2e", b"%25", b"secret.txt", b"secret", b"index.html", b"html", b"sub",
+                    b"private", b"host", b"public", b"aa", b"h", b"a.html", b"index", b"?", b"?a"]
+ENDINGS = [b"/", b".", b"%2e", b"%2f", b"%252e", b"%252f", b"/.", b"./", b"..", b"%2e/", b"/%2e", b"%5c", b"\\"]
+
+
+def climb_target(rng):
+    t = b"/" + rng.choice(PREFIX)
+    for _ in range(rng.randrange(1, 4)):
+        t += rng.choice(DOTDOT) + rng.choice(SEP)
+    return t + rng.choice(LEAF)
+
+
+def token_target(rng, ending=False):
+    t = b"/" + b"".join(rng.choice(PTOKENS) for _ in range(rng.randrange(0, 7)))
+    if ending:
+        t += rng.choice(ENDINGS)
+    return t
+
+
+def pipe_target(rng):
+    r = rng.random()
+    if r < 0.3:
+        return climb_target(rng)
+    if r < 0.5:
+        return token_target(rng, True)
+    if r < 0.65:
+        return token_target(rng)
+    if r < 0.8:
+        return rng.choice([b"/", b"/index.html", b"/a/", b"/a/index.html", b"/a.", b"/a.html", b"/secret.txt", b"/secret.", b"/aa", b"/aa.", b"/h", b"/h/",
+                           b"/a/a.", b"/a/a.html", b"/a/a", b"/sub/", b"/%252e%252e/", b"/%252e%252e/index.html", b"/%2e%2e/", b"/..%5csecret.txt",
+                           "/é".encode(), b"/%c3%a9", b"/%25", b"/%5c", b"/a%5ca", b"/nonexistent", b"/a", b"/sub", b"/%2e", b"/.a/a", b"/..a", b"/a.."])
+    if r < 0.9:
+        return rng.choice([t for t in DIRECTED if t.startswith(b"/")])
+    return rand_target(rng)
+
+
+def rand_cfgkey(rng):
+    return (rng.random() < 0.65, rng.random() < 0.6, rng.random() < 0.5, rng.choice(PUBLIC_DIRS))
+
+
+def history(rng, n):
+    """n requests; targets are repeated (other method, other Origin kind, equivalent spelling) so that the cache is exercised"""
+    reqs = []
+    while len(reqs) < n:
+        if reqs and rng.random() < 0.3:
+            m, t, k = rng.choice(reqs)
+            v = rng.random()
+            if v < 0.5:
+                pass
+            elif v < 0.7 and t.endswith(b"/"):
+                t = t + b"index.html"
+            elif v < 0.8 and t.endswith(b"."):
+                t = t + b"html"
+            elif v < 0.9:
+                t = t + rng.choice(ENDINGS)
+            reqs.append((rng.choice(METHODS) if rng.random() < 0.5 else b"GET", t, rng.choice([0, 0, 0, 1, 2, 3, 4])))
+            continue
+        m = b"GET" if rng.random() < 0.6 else rng.choice(METHODS)
+        k = 0 if rng.random() < 0.7 else rng.randrange(5)
+        reqs.append((m, pipe_target(rng), k))
+    return reqs
+
+
+def chunks(l, n):
+    return [l[i:i + n] for i in range(0, len(l), n)]
+
+
+def pipe_cases(rng, tier):
+    import itertools
     cases = []
+    directed = [t for t in DIRECTED if t.startswith(b"/")]
+    # 1. the hand-written list through every combination of default extensions / response cache, GET, no Origin header
+    for de in (True, False):
+        for ca in (True, False):
+            for pub in (PUBLIC_DIRS if tier == "thorough" else PUBLIC_DIRS[:1] if not de else PUBLIC_DIRS[::2]):
+                for ch in chunks(directed, 30):
+                    cases.append(pipe_case((de, ca, ca, pub), [(b"GET", t, 0) for t in ch], "pipe-directed"))
+    # 2. the hand-written list with methods and Origin kinds, each target twice in a row (second answer may come from the cache)
+    for rep in range(2 if tier == "quick" else 8):
+        rows = []
+        for t in directed:
+            m1, m2 = rng.choice(METHODS), rng.choice(METHODS)
+            rows += [(m1, t, rng.choice([0, 0, 1, 2, 3, 4])), (m2, t, rng.choice([0, 0, 1, 2, 3, 4]))]
+        for ch in chunks(rows, 30):
+            cases.append(pipe_case(rand_cfgkey(rng), ch, "pipe-directed-methods"))
+    # 3. bounded-exhaustive token strings through the pipeline
+    full = 3 if tier == "quick" else 4
+    for L in range(0, full + 1):
+        allt = [b"/" + b"".join(c) for c in itertools.product(TOKENS, repeat=L)]
+        for de in ((True, False) if L <= 2 or tier == "thorough" else (True,)):
+            for ch in chunks(allt, 28):
+                cases.append(pipe_case((de, True, True, b"public"), [(b"GET", t, 0) for t in ch], "pipe-exhaustive"))
+    # 4. traversal spellings (single / double encodings, backslashes, overlong forms) x prefixes x leaves
+    n = 40 if tier == "quick" else 600
+    for _ in range(n):
+        cases.append(pipe_case(rand_cfgkey(rng), [(b"GET" if rng.random() < 0.8 else rng.choice(METHODS), climb_target(rng), 0)
+                                                 for _ in range(25)], "pipe-climb"))
+    # 5. token strings with an ending that triggers (or nearly triggers) the redirect Prime
+    for _ in range(n):
+        cases.append(pipe_case((True, rng.random() < 0.5, rng.random() < 0.5, rng.choice(PUBLIC_DIRS)),
+                               [(b"GET", token_target(rng, True), 0) for _ in range(25)], "pipe-endings"))
+    # 6. mixed histories: repeated targets, methods, Origin kinds, all configurations
+    for _ in range(n):
+        cases.append(pipe_case(rand_cfgkey(rng), history(rng, rng.randrange(10, 31)), "pipe-history"))
+    return cases
+
+
+def _pipe_rows(c, i):
+    iv = kv.xparse(i)
+    reqs = c.x[1][1][1]
+    if iv[0] != "L" or len(iv[1]) != len(reqs):
+        return None
+    return list(zip(reqs, iv[1]))
+
+
+def _req_text(c, idx, r):
+    de, ca, fc, pub = c.x[1][0][1][0][1], c.x[1][0][1][1][1], c.x[1][0][1][2][1], c.x[1][0][1][3][1]
+    return "request #%d %s %r origin_kind=%d (default_ext=%d cache=%d fcache=%d public_dir=%r)" % (
+        idx, r[1][0][1].decode(), r[1][1][1], r[1][2][1], de, ca, fc, pub)
+
+
+def pipe_spec_ok(c, i, s):
+    """(b): status 400 exactly when the percent-decoded path is unsafe (Coq spec component, independent of serve / sanitize_path); then
+    nothing but the error page comes back and no Prepare extension was consulted or run"""
+    rows = _pipe_rows(c, i)
+    sv = kv.xparse(s)
+    if rows is None or sv[0] != "L" or len(sv[1]) != len(rows):
+        c.meta["why"] = "malformed pipeline output"
+        return False
+    for idx, ((r, o), f) in enumerate(zip(rows, sv[1])):
+        if f == ("N", 96):
+            if o != ("L", [("N", 96)]):
+                c.meta["why"] = "a target refused by the specification's URI grammar was served: " + _req_text(c, idx, r)
+                return False
+            continue
+        if o[0] != "L" or len(o[1]) != 3:
+            c.meta["why"] = "no answer (panic / undecodable body): " + _req_text(c, idx, r) + " -> " + kv.pretty(o)
+            return False
+        status, body, log = o[1][0][1], o[1][1][1], o[1][2][1]
+        if (status == 400) != (f[1] == 1):
+            c.meta["why"] = ("unsafe path not rejected: " if f[1] == 1 else "safe path rejected with 400: ") + _req_text(c, idx, r) + \
+                " -> status %d body %r" % (status, body[:80])
+            return False
+        if status == 400 and (body != b"ERRPAGE" or log):
+            c.meta["why"] = "400 but a Prepare extension was consulted or content returned: " + _req_text(c, idx, r) + " -> " + kv.pretty(o)
+            return False
+    return True
+
+
+def extra_oracle(c, i):
+    """model-independent: (a) no sentinel content from outside the public directory in any body; (c) the internal CORS handlers answer
+    only when a CORS Prime extension produced the override (never for a request without a foreign Origin / preflight headers)"""
+    if c.comp != "pathsanpipe.run":
+        return None
+    rows = _pipe_rows(c, i)
+    if rows is None:
+        return "malformed pipeline output " + i[:100]
+    default_ext = c.x[1][0][1][0][1] == 1
+    for idx, (r, o) in enumerate(rows):
+        if o[0] != "L" or len(o[1]) != 3:
+            continue
+        status, body, log = o[1][0][1], o[1][1][1], o[1][2][1]
+        m, k = r[1][0][1], r[1][2][1]
+        if SENTINEL in body:
+            return "content of a file outside the public directory returned: " + _req_text(c, idx, r) + " -> status %d body %r" % (status, body[:80])
+        may_override = default_ext and (k in (2, 3) or (k == 4 and m == b"OPTIONS"))
+        if not may_override and (status in INTERNAL_STATUS or body == CORS_DENIED):
+            return "an internal /./cors_* handler answered a request no CORS Prime extension rerouted: " + _req_text(c, idx, r) + \
+                " -> status %d body %r" % (status, body[:80])
+        if status == 200 and not log and not body.startswith(b"PUB:") and not body.startswith(b"HANDLER-"):
+            return "200 with a body that is neither a public file nor a handler's: " + _req_text(c, idx, r) + " -> %r" % body[:80]
+    return None
+
+
+def generate(rng, tier):
+    cases = pipe_cases(rng, tier)
     for t in DIRECTED:
         cases.append(direct(t, "directed"))
     # bounded-exhaustive over the token alphabet, origin form ("/" + tokens)
@@ -201,6 +434,8 @@ def generate(rng, tier):
 
 
 def spec_ok(c, i, s):
+    if c.comp == "pathsanpipe.run":
+        return pipe_spec_ok(c, i, s)
     if c.comp == "pathsan.batch":
         return i == s
     # direct: implementation (path, decoded, sanitize, utf8 decoding, fs path) against (must be accepted?, must decode?)
@@ -215,6 +450,8 @@ def spec_ok(c, i, s):
 
 
 def signature(c, m):
+    if c.comp == "pathsanpipe.run":
+        return "pipe"
     if c.comp == "pathsan.direct":
         v = kv.xparse(m)
         if len(v[1]) != 5:
@@ -239,4 +476,6 @@ TECHNIQUE = "Coq proof (model satisfies spec for all inputs) + differential corr
 
 
 def extra_coverage(cases, impl, model, spec):
-    return {"targets_in_batches": sum(c.meta.get("targets", 0) for c in cases if c.comp == "pathsan.batch")}
+    pc = [c for c in cases if c.comp == "pathsanpipe.run"]
+    return {"targets_in_batches": sum(c.meta.get("targets", 0) for c in cases if c.comp == "pathsan.batch"),
+            "pipeline_histories": len(pc), "pipeline_requests": sum(c.meta.get("requests", 0) for c in pc)}
